@@ -33,7 +33,7 @@ structure RawTree where
 
 inductive TreeErr where
   | noHierarchy | badKeys | nonStrNode | orphan | missingChild | twoParents
-  | dupRows | repeatedChild
+  | dupRows | repeatedChild | emptyHierarchy | noChildren
   | flatTree | levelNotInTree | isLeafLevel | badLevel | badNode
   deriving Repr, BEq, DecidableEq, Inhabited
 
@@ -42,6 +42,7 @@ def TreeErr.name : TreeErr → String
   | .nonStrNode => "nonStrNode" | .orphan => "orphan"
   | .missingChild => "missingChild" | .twoParents => "twoParents"
   | .dupRows => "dupRows" | .repeatedChild => "repeatedChild"
+  | .emptyHierarchy => "emptyHierarchy" | .noChildren => "noChildren"
   | .flatTree => "flatTree"
   | .levelNotInTree => "levelNotInTree" | .isLeafLevel => "isLeafLevel"
   | .badLevel => "badLevel" | .badNode => "badNode"
@@ -120,11 +121,24 @@ def keysMatch (t : RawTree) : Bool :=
   t.hierarchy.all (fun h => (t.levels.map (·.1)).contains h)
 
 /-- Does some non-leaf parent list the same child twice?  (The check added by
-the `fix:` commit for defect D5; `strictChildren := false` gives the validator
-of the pinned tree.) -/
+the `fix:` commit for defect D5; kept for reference, the validator now runs
+`firstChildListErr`, which interleaves it with the no-children test.) -/
 def repeatsChild (t : RawTree) : Bool :=
   (levelPairs t.hierarchy).any (fun (pl, _) =>
     (t.level pl).any (fun (_, cs) => hasDup cs))
+
+/-- one parent of the loop "every node above the leaf level has a child and no
+parent lists the same child more than once": empty list first, then repeats -/
+def childListErr (cs : List Node) : Option TreeErr :=
+  if cs.isEmpty then some .noChildren
+  else if hasDup cs then some .repeatedChild
+  else none
+
+/-- that loop over `hierarchy[:-1]` × the level's parents, in dict order: the
+first offending parent decides the error class.  (The `noChildren` test was
+added by a later `fix:` commit than the repeated-child test.) -/
+def firstChildListErr (t : RawTree) : Option TreeErr :=
+  ((levelPairs t.hierarchy).flatMap (fun (pl, _) => (t.level pl).map (·.2))).findSome? childListErr
 
 def validateWith (strictChildren : Bool) (t : RawTree) : Except TreeErr Unit :=
   if !t.hasHierarchy then .error .noHierarchy
@@ -133,12 +147,19 @@ def validateWith (strictChildren : Bool) (t : RawTree) : Except TreeErr Unit :=
   else match checkLevelPairs t (levelPairs t.hierarchy) [] with
     | .error e => .error e
     | .ok _ =>
-      if strictChildren && t.repeatsChild then .error .repeatedChild
-      else if hasDup t.allRows then .error .dupRows
-      else .ok ()
+      match (if strictChildren then t.firstChildListErr else none) with
+      | some e => .error e
+      | none => match t.leafLevel with
+        -- `leaf_level = taxonomy_tree['hierarchy'][-1]` : IndexError on `[]`
+        | none => .error .emptyHierarchy
+        | some _ =>
+          if hasDup t.allRows then .error .dupRows
+          else .ok ()
 
-/-- The validator as it stands in `/repo` (strictness flag regenerated from the
-source by the translator, see `CTM/Generated/TreeConsts.lean`). -/
+/-- The validator as it stands in `/repo`: with the child-list tests of the
+`fix:` commits (`validateWith false` = the validator of the pinned tree, which
+had neither).  The obligations `generated_*` of Props/C10.lean tie the flag to
+the current source through `CTM/Generated/TreeConsts.lean`. -/
 def validate (t : RawTree) : Except TreeErr Unit := validateWith true t
 
 /-! ### `TaxonomyTree` queries -/
